@@ -144,6 +144,8 @@ def gen_op(rng, w):
         tot = m * n
         shapes = [(a, tot // a) for a in range(1, tot + 1) if tot % a == 0] if tot else [(0, rng.randint(0, 3)), (rng.randint(0, 3), 0)]
         sh = rng.choice(shapes) if rng.random() < 0.9 else (m + 1, n)
+        if rng.random() < 0.05:
+            sh = (sh[0] + 2 ** 32, sh[1])      # must not be taken modulo 2^32
         return ['size', t, list(sh)]
     if r < 0.63 and tc in ('i', 'd') and m * n > 0:
         return ['mvwrite', t, rng.randrange(m), rng.randrange(n), mkval(tc, rng)]
@@ -275,7 +277,10 @@ def gen_derive(rng, w, t):
         return ['derive', nm, 'blocks', t, cols, flat, size, rng.choice([None, None, None, 'i', 'd', 'z'])]
     if kind == 'fromnum':
         size = rng.choice([None, [rng.randint(0, 3), rng.randint(0, 3)], [rng.randint(1, 3), rng.randint(1, 3)], [-1, 2]])
-        return ['derive', nm, 'fromnum', t, {'k': 'num', 'v': mkval(rng.choice(['i', 'd', 'z']), rng)}, size, rng.choice([None, None, 'i', 'd', 'z'])]
+        v_ = mkval(rng.choice(['i', 'd', 'z']), rng)
+        if rng.random() < 0.08:
+            v_ = rng.choice([2 ** 63, -2 ** 63 - 1, 2 ** 70])      # does not fit a 64-bit element
+        return ['derive', nm, 'fromnum', t, {'k': 'num', 'v': v_}, size, rng.choice([None, None, 'i', 'd', 'z'])]
     if kind == 'recast':
         tot = m * n
         shapes = [(a, tot // a) for a in range(1, tot + 1) if tot % a == 0] if tot else [(0, 2), (3, 0), (0, 0)]
